@@ -31,10 +31,12 @@
 #include "configuration.h"
 #include "message.h"
 
+#include <fcntl.h>
 #include <limits.h>
 #include <stdio.h>
 #include <stdlib.h>
 #include <string.h>
+#include <unistd.h>
 
 
 
@@ -55,8 +57,10 @@ int snoopy_output_fileoutput (char const * const logMessage, char const * const 
 {
     char   filePathBuf[PATH_MAX] = {'\0'};
     char * filePath = filePathBuf;
-    FILE  *fp;
-    int    charCount;
+    int    fd;
+    char  *line;
+    size_t lineLen;
+    ssize_t charCount;
 
     // Check if output file is properly configured
     if (0 == strcmp(arg, "")) {
@@ -66,14 +70,34 @@ int snoopy_output_fileoutput (char const * const logMessage, char const * const 
     // Parse the output file specification (i.e. for %{datetime} or similar tags)
     snoopy_message_generateFromFormat(filePath, PATH_MAX, PATH_MAX-1, arg);
 
+    // Prepare the whole line (message + newline) up front
+    lineLen = strlen(logMessage) + 1;
+    line    = malloc(lineLen);
+    if (NULL == line) {
+        return SNOOPY_OUTPUT_FAILURE;
+    }
+    memcpy(line, logMessage, lineLen-1);
+    line[lineLen-1] = '\n';
+
     // Try to open file in append mode
-    fp = fopen(filePath, "a");
-    if (NULL == fp) {
+    fd = open(filePath, O_WRONLY|O_APPEND|O_CREAT, 0666);
+    if (-1 == fd) {
+        free(line);
         return SNOOPY_OUTPUT_FAILURE;
     }
 
-    // Try to print to file
-    charCount = fprintf(fp, "%s\n", logMessage);
-    fclose(fp);
-    return charCount;
+    /*
+     * Write the whole line with a single write() call.
+     *
+     * Going through stdio splits messages longer than its buffer (4 kB) into multiple
+     * write() calls, and other processes logging to the same file can then get their
+     * messages in between. A single write() to a file opened with O_APPEND is atomic.
+     */
+    charCount = write(fd, line, lineLen);
+    close(fd);
+    free(line);
+    if (charCount < 0) {
+        return SNOOPY_OUTPUT_FAILURE;
+    }
+    return (int) charCount;
 }
